@@ -1,10 +1,13 @@
-/* C04: contract of JSON::escape_string (loop contract + function contract) and the ghost vocabulary of the string lemmas.
+/* C04: contracts of JSON::escape_string (loop contract + function contract), of its loop body, and the ghost vocabulary of the
+ * string lemmas.
  *
  * escape_string(s, mode) appends to `ret` (the local result string of the C++ function, an out-parameter here; g_base = its size
  * on entry) one group per character of s, in order and contiguously:  POS(0) = g_base, the group of s[k] occupies
  * [POS(k), POS(k+1)), POS(k+1) = POS(k) + C04_ESC_LEN(s[k], mode), its bytes are C04_ESC_BYTE(s[k], mode, 0..), POS(n) = final size.
- * Stated for one symbolic index g_ek (ghost index idiom): g_p0 = POS(g_ek), g_p1 = POS(g_ek + 1), both recorded by ghost
- * statements (g_p0 at the start of iteration g_ek, g_p1 at the start of iteration g_ek + 1 resp. behind the loop). */
+ * Stated for one symbolic index g_ek (ghost index idiom): g_ech = s[g_ek]; (g_gl; g_g0..g_g5) = the group C04_ESC(g_ech, mode),
+ * bound once by a ghost statement at function start so that the clauses mention scalars only; g_p0 = POS(g_ek) and
+ * g_p1 = POS(g_ek + 1) are recorded by ghost statements (g_p0 at the start of iteration g_ek, g_p1 at the start of iteration
+ * g_ek + 1 resp. behind the loop).  (g_cl; g_c0..g_c5) = the group of the character handled by the last execution of the loop body. */
 #ifndef C04_STRING_H
 #define C04_STRING_H
 #include "stubs/C04_json.h"
@@ -12,6 +15,8 @@
 
 extern size_t g_ek, g_p0, g_p1, g_base;
 extern char g_ech;
+extern unsigned g_gl, g_cl;
+extern char g_g0, g_g1, g_g2, g_g3, g_g4, g_g5, g_c0, g_c1, g_c2, g_c3, g_c4, g_c5;
 extern int g_c04_dummy;
 
 #ifdef VERIF_SMALL
@@ -20,38 +25,61 @@ extern int g_c04_dummy;
 #define C04_SMAX 0x0FFFFFFFFFFFull
 #endif
 
-/* ghost statements (they assign ghosts only) */
-#define C04_ESCAPE_GHOST do { if (verif_i == g_ek) { g_p0 = ret->size; g_ech = ch; } if (verif_i == g_ek + 1) { g_p1 = ret->size; } } while (0)
-#define C04_ESCAPE_END do { if (vstr_size(s) == g_ek + 1) { g_p1 = ret->size; } } while (0)
-#define C04_ESCAPE_GHOSTS g_p0, g_p1, g_ech
+/* (L; B0..B5) := / == the group of byte b */
+#define C04_SET_GROUP(L, B0, B1, B2, B3, B4, B5, b, mode) do { L = C04_ESC_LEN(b, mode); B0 = C04_ESC_BYTE(b, mode, 0); B1 = C04_ESC_BYTE(b, mode, 1); \
+  B2 = C04_ESC_BYTE(b, mode, 2); B3 = C04_ESC_BYTE(b, mode, 3); B4 = C04_ESC_BYTE(b, mode, 4); B5 = C04_ESC_BYTE(b, mode, 5); } while (0)
+#define C04_GROUP_IS(L, B0, B1, B2, B3, B4, B5, b, mode) (L == C04_ESC_LEN(b, mode) && B0 == C04_ESC_BYTE(b, mode, 0) && B1 == C04_ESC_BYTE(b, mode, 1) && \
+  B2 == C04_ESC_BYTE(b, mode, 2) && B3 == C04_ESC_BYTE(b, mode, 3) && B4 == C04_ESC_BYTE(b, mode, 4) && B5 == C04_ESC_BYTE(b, mode, 5))
+/* the L bytes at index p of the string are B0.. (L is 1, 2, 4 or 6) */
+#define C04_BYTES_AT(str, p, L, B0, B1, B2, B3, B4, B5) \
+  ((str)->data[p] == B0 && (L < 2 || (str)->data[(p) + 1] == B1) && (L < 4 || ((str)->data[(p) + 2] == B2 && (str)->data[(p) + 3] == B3)) && \
+   (L < 6 || ((str)->data[(p) + 4] == B4 && (str)->data[(p) + 5] == B5)))
+#define C04_G g_gl, g_g0, g_g1, g_g2, g_g3, g_g4, g_g5
+#define C04_C g_cl, g_c0, g_c1, g_c2, g_c3, g_c4, g_c5
+#define C04_GROUP_IS_(...) C04_GROUP_IS(__VA_ARGS__)
+#define C04_SET_GROUP_(...) C04_SET_GROUP(__VA_ARGS__)
+#define C04_BYTES_AT_(...) C04_BYTES_AT(__VA_ARGS__)
 
-#define C04_GROUP_AT(ret, p, b, mode) \
-  ((ret)->data[p] == C04_ESC_BYTE(b, mode, 0) && \
-   (C04_ESC_LEN(b, mode) < 2 || (ret)->data[(p) + 1] == C04_ESC_BYTE(b, mode, 1)) && \
-   (C04_ESC_LEN(b, mode) < 4 || ((ret)->data[(p) + 2] == C04_ESC_BYTE(b, mode, 2) && (ret)->data[(p) + 3] == C04_ESC_BYTE(b, mode, 3))) && \
-   (C04_ESC_LEN(b, mode) < 6 || ((ret)->data[(p) + 4] == C04_ESC_BYTE(b, mode, 4) && (ret)->data[(p) + 5] == C04_ESC_BYTE(b, mode, 5))))
+/* ghost statements (they assign ghosts only) */
+#define C04_CHAR_GHOST C04_SET_GROUP_(C04_C, ch, mode)
+#define C04_ESCAPE_INIT do { if (g_ek < s->size) { g_ech = s->data[g_ek]; C04_SET_GROUP_(C04_G, g_ech, mode); } } while (0)
+#define C04_ESCAPE_GHOST do { if (verif_i == g_ek) { g_p0 = ret->size; } if (g_ek < verif_i && verif_i == g_ek + 1) { g_p1 = ret->size; } } while (0)
+#define C04_ESCAPE_END do { if (g_ek < vstr_size(s) && vstr_size(s) == g_ek + 1) { g_p1 = ret->size; } } while (0)
+#define C04_ESCAPE_GHOSTS g_p0, g_p1, C04_C
 
 #define C04_ESCAPE_LOOP_INV(ret, s, i) \
   ((i) <= (s)->size && g_base + (i) <= (ret)->size && (ret)->size <= g_base + 6 * (i) && \
-   (g_ek < (i) ==> (g_ech == (s)->data[g_ek] && g_base + g_ek <= g_p0 && g_p0 + C04_ESC_LEN(g_ech, mode) <= (ret)->size && C04_GROUP_AT(ret, g_p0, g_ech, mode))) && \
-   (g_ek + 1 == (i) ==> (ret)->size == g_p0 + C04_ESC_LEN(g_ech, mode)) && \
-   (g_ek + 1 < (i) ==> g_p1 == g_p0 + C04_ESC_LEN(g_ech, mode)))
+   (g_ek < (i) ==> (g_base + g_ek <= g_p0 && g_p0 < (ret)->size && g_p0 + g_gl <= (ret)->size && (g_ek != 0 || g_p0 == g_base) && \
+                    (g_ek + 1 == (i) ? (ret)->size == g_p0 + g_gl : g_p1 == g_p0 + g_gl))) && \
+   (g_ek < (i) ==> C04_BYTES_AT_(ret, g_p0, C04_G)))
+
+/* the body of the loop, for one character: appends exactly the group C04_ESC(ch, mode); the bytes below the old size are untouched */
+void JSON_escape_char(vstr* ret, char ch, int mode)
+__CPROVER_requires(__CPROVER_is_fresh(ret, sizeof(vstr)))
+__CPROVER_requires(ret->cap <= VSTR_MAXCAP && ret->size <= ret->cap && 6 <= ret->cap - ret->size)
+__CPROVER_requires(__CPROVER_is_fresh(ret->data, ret->cap))
+__CPROVER_requires(mode >= 0 && mode <= 2)
+__CPROVER_ensures(C04_GROUP_IS_(C04_C, ch, mode))
+__CPROVER_ensures(ret->size == __CPROVER_old(ret->size) + g_cl)
+__CPROVER_ensures(C04_BYTES_AT_(ret, __CPROVER_old(ret->size), C04_C))
+__CPROVER_assigns(ret->size, __CPROVER_object_from(ret->data + ret->size), C04_C);
 
 void JSON_escape_string(vstr* ret, const vstr* s, int mode)
 __CPROVER_requires(__CPROVER_is_fresh(s, sizeof(vstr)))
 __CPROVER_requires(s->size <= C04_SMAX && s->size <= s->cap && s->cap <= VSTR_MAXCAP)
 __CPROVER_requires(__CPROVER_is_fresh(s->data, s->cap))
 __CPROVER_requires(__CPROVER_is_fresh(ret, sizeof(vstr)))
-__CPROVER_requires(ret->cap <= VSTR_MAXCAP && ret->size <= 8 && ret->size == g_base && 6 * s->size <= ret->cap - ret->size)
+__CPROVER_requires(ret->cap <= VSTR_MAXCAP && ret->size <= 8 && ret->size <= ret->cap && ret->size == g_base && 6 * s->size <= ret->cap - ret->size)
 __CPROVER_requires(__CPROVER_is_fresh(ret->data, ret->cap))
 __CPROVER_requires(mode >= 0 && mode <= 2)
 __CPROVER_ensures(g_base + s->size <= ret->size && ret->size <= g_base + 6 * s->size)
-__CPROVER_ensures(g_ek < s->size ==> (g_ech == s->data[g_ek] && g_base + g_ek <= g_p0 && g_p1 == g_p0 + C04_ESC_LEN(g_ech, mode) && g_p1 <= ret->size))
-__CPROVER_ensures(g_ek < s->size ==> C04_GROUP_AT(ret, g_p0, g_ech, mode))
+__CPROVER_ensures(g_ek < s->size ==> (g_ech == s->data[g_ek] && C04_GROUP_IS_(C04_G, g_ech, mode)))
+__CPROVER_ensures(g_ek < s->size ==> (g_base + g_ek <= g_p0 && g_p0 < ret->size && g_p1 == g_p0 + g_gl && g_p1 <= ret->size))
+__CPROVER_ensures(g_ek < s->size ==> C04_BYTES_AT_(ret, g_p0, C04_G))
 __CPROVER_ensures((g_ek == 0 && s->size > 0) ==> g_p0 == g_base)
-__CPROVER_ensures(g_ek + 1 == s->size ==> g_p1 == ret->size)
+__CPROVER_ensures((g_ek < s->size && g_ek + 1 == s->size) ==> g_p1 == ret->size)
 __CPROVER_ensures(s->size == 0 ==> ret->size == g_base)
-__CPROVER_assigns(ret->size, __CPROVER_object_whole(ret->data), g_p0, g_p1, g_ech);
+__CPROVER_assigns(ret->size, __CPROVER_object_from(ret->data + ret->size), g_p0, g_p1, g_ech, C04_G, C04_C);   /* frame: the bytes below the old size are untouched */
 
 /* the string loop of JSON::parse is not put under a loop contract (see props/C04.py: induction step = l_string_step) */
 #define C04_STREAM_GHOSTS g_c04_dummy
